@@ -345,10 +345,13 @@ func TestVerif_C02(t *testing.T) {
 	// long histories (single executions, not claimed exhaustive): up to and beyond the
 	// 371-record capacity of the dense name index, three shapes each
 	for _, tg := range targets {
-		for _, L := range []int{50, 371, 372, 400} {
-			for _, shape := range []string{"grow-only", "grow-then-delete-every-second", "overwrite-each-with-another-size"} {
-				if tg.kind == "group" && shape == "grow-then-delete-every-second" {
+		for _, L := range []int{9, 50, 371, 372, 400} {
+			for _, shape := range []string{"grow-only", "grow-then-delete-every-second", "overwrite-each-with-another-size", "delete-all-then-write-again", "delete-all-reopen-then-write-again"} {
+				if tg.kind == "group" && shape != "grow-only" && shape != "overwrite-each-with-another-size" {
 					continue // no delete on groups
+				}
+				if strings.HasPrefix(shape, "delete-all") && L > 50 {
+					continue
 				}
 				var h []vfOp
 				if tg.kind == "dataset" {
@@ -369,6 +372,15 @@ func TestVerif_C02(t *testing.T) {
 					for i := 0; i < L; i++ {
 						h = append(h, vfOp{Op: "attr", Path: tg.path, Name: fmt.Sprintf("L%04d", i), Value: []string{"s40", "i64", "u8"}[i%3]})
 					}
+				case "delete-all-then-write-again", "delete-all-reopen-then-write-again":
+					// dense storage emptied completely (index with no record), then used again
+					for i := 0; i < L; i++ {
+						h = append(h, vfOp{Op: "delattr", Path: tg.path, Name: fmt.Sprintf("L%04d", i)})
+					}
+					if shape == "delete-all-reopen-then-write-again" {
+						h = append(h, vfOp{Op: "reopen"})
+					}
+					h = append(h, vfOp{Op: "attr", Path: tg.path, Name: "again1", Value: "i32a"}, vfOp{Op: "attr", Path: tg.path, Name: "again2", Value: "s40"})
 				}
 				ex := vfRun(dir, nil, h, true)
 				r.Transitions(1)
@@ -377,7 +389,7 @@ func TestVerif_C02(t *testing.T) {
 				model := map[string]string{}
 				accepted := 0
 				for i, o := range h[np:] {
-					if ex.Errs[np+i] != nil {
+					if ex.Errs[np+i] != nil || o.Path != tg.path {
 						continue
 					}
 					if o.Op == "attr" {
